@@ -520,6 +520,24 @@ pub fn gen_invalid_instance(rng: &mut Rng, schema: &Value, defs: &Defs) -> Optio
         }
         Value::Object(m) => {
             let mut v = vec![json!([]), json!("obj")];
+            // one member too many (invalid for closed objects, for externally
+            // tagged variants, ...)
+            let mut more = m.clone();
+            more.insert("zzExtra".into(), json!(true));
+            v.push(Value::Object(more));
+            // the union of two alternatives of a oneOf/anyOf
+            for _ in 0..3 {
+                if let Some(Value::Object(other)) = gen_instance(rng, schema, defs, 0) {
+                    if other.keys().any(|k| !m.contains_key(k)) {
+                        let mut both = m.clone();
+                        for (k, x) in other {
+                            both.entry(k).or_insert(x);
+                        }
+                        v.push(Value::Object(both));
+                        break;
+                    }
+                }
+            }
             if let Some(k) = m.keys().next() {
                 let mut less = m.clone();
                 less.remove(k);
